@@ -30,9 +30,27 @@ def r1_inner(ctx):
     opaque = {n for n in facts.fns if n.startswith(MG)} | {n for n in facts.fns if n.startswith(CHESSMOVE)} | {INNER}
     outs = Engine(facts, opaque=opaque - {INNER}, inline_filter=lambda n, c: n != INNER).run(INNER)
     ctx.touch(INNER)
-    base = [o for o in outs if o.kind == 'return' and dict(o.conds).get(('p', 1)) == 0]
+    # base case: the return paths that do not enter the iteration are taken exactly when depth == 0 (any spelling of the test)
+    from sa.evalterm import ev, Unevaluable
+
+    def depth_holds(o, d):
+        for a, v in o.conds:
+            if not any(x == ('p', 1) for x in subterms(a)):
+                continue
+            try:
+                x = ev(a, {('p', 1): d})
+            except Unevaluable:
+                return None
+            if isinstance(v, tuple) and v[0] == 'not':
+                if x in v[1]:
+                    return False
+            elif x != int(v):
+                return False
+        return True
+    noloop = [o for o in outs if o.kind == 'return' and not any(e[0] == 'loop_head' for e in o.events)]
+    base = [o for o in noloop if depth_holds(o, 0)]
     okb = False
-    if len(base) == 1:
+    if len(base) == 1 and len(noloop) == 1 and not any(depth_holds(base[0], d) for d in (1, 2, 5, 255)):
         v = base[0].value
         okb = v[0] == 'call' and v[1].endswith('::len') and any(s[0] == 'call' and s[1] == GEN and s[2][2] == ('p', 3) and s[2][1] == ('ref', ('der', ('p', 2)))
                                                                for s in subterms(v))
@@ -69,9 +87,16 @@ def r1_inner(ctx):
     exits = [o for o in outs if o.kind == 'return' and any(e[0] == 'loop_head' for e in o.events)]
     oke = bool(exits)
     for o in exits:
-        nxt = [c for c in o.conds if c[0][0] == 'discr' and c[0][1][0] == 'call' and c[0][1][1].endswith('Iterator>::next')]
-        oke = oke and len(nxt) == 1 and nxt[0][1] == 0 and o.value[0] == 'lv'
+        head = [e for e in o.events if e[0] == 'loop_head'][0]
+        if isinstance(head[2], tuple) and head[2][0] == 'adapter':
+            # fold / for_each visit every element by construction; a filter stage would skip candidates
+            ad = [e for e in o.events if e[0] == 'adapter' and e[2] == head[2]]
+            oke = oke and len(ad) == 1 and ad[0][1] in ('fold', 'for_each') and not ad[0][4] and o.value[0] == 'lv' and o.value[1] == head[2]
+        else:
+            nxt = [c for c in o.conds if c[0][0] == 'discr' and c[0][1][0] == 'call' and c[0][1][1].endswith('Iterator>::next')]
+            oke = oke and len(nxt) == 1 and nxt[0][1] == 0 and o.value[0] == 'lv'
         oke = oke and not any(e[0] == 'call' and e[1] == INNER for e in o.events)
+        oke = oke and depth_holds(o, 0) is False
     ctx.ob(rule, INNER, 'every candidate is visited: the loop ends only on an exhausted iterator and returns the accumulator', oke,
            found=[[show_cond(c) for c in o.conds] for o in exits][:2], expected='no early exit')
     # iteration source = the generated list
@@ -79,6 +104,8 @@ def r1_inner(ctx):
     for o in backs + exits:
         for e in o.events:
             if e[0] == 'call' and e[1].endswith('IntoIterator>::into_iter') and any(s[0] == 'call' and s[1] == GEN for s in subterms(e[2][0])):
+                src_ok = True
+            if e[0] == 'adapter' and any(s[0] == 'call' and s[1] == GEN for s in subterms(e[3])):
                 src_ok = True
     ctx.ob(rule, INNER, 'iterates over the generated candidate list', src_ok, expected='candidates.iter()')
 
